@@ -1,5 +1,6 @@
 import SphericalVerif.Gen.Dispatch
 import SphericalVerif.Gen.HKern
+import SphericalVerif.Gen.FillKern
 import SphericalVerif.Model.Assemble
 import SphericalVerif.Model.W3j
 import SphericalVerif.Spec.Orderings
@@ -22,6 +23,29 @@ abbrev M := HMem Float
 
 def runHF (L P : Nat) (c s dflt : Float) : M :=
   runH (α := Float) (μ := M) L P c s ({ map := ∅, dflt := dflt } : M)
+
+/-- the GENERATED kernels (Gen/HKern.lean) on a flat hash-map memory; tables from the generated element formulas.
+    Array ids: Hwedge = 0, Hv = 1, Hextra = 2. -/
+def genHState (L P : Nat) (c s dflt : Float) : HFMem Float :=
+  let LI : Int := L
+  let nm := Spec.nmRange (LI+1)
+  let nabsm := Spec.nabsmRange (LI+1)
+  let nanF := Float.ofBits 0x7FF8000000000BAD
+  let tabOf (xs : List Float) : Int → Float :=
+    let arr := xs.toArray
+    fun i => if i < 0 then nanF else arr.getD i.toNat nanF
+  let a := tabOf (nabsm.map (fun t => Gen.tab_a (α := Float) t.1 t.2))
+  let b := tabOf (nm.map (fun t => Gen.tab_b (α := Float) t.1 t.2))
+  let d := tabOf (nm.map (fun t => Gen.tab_d (α := Float) t.1 t.2))
+  let g := tabOf (nm.map (fun t => Gen.tab_g (α := Float) t.1 t.2))
+  let h := tabOf (nm.map (fun t => Gen.tab_h (α := Float) t.1 t.2))
+  let st0 : HFMem Float := { map := ∅, dflt := dflt }
+  Gen.Wigner_H (α := Float) (φ := HFMem Float) g h LI P a b d ⟨c, s⟩ 0 1 2 st0
+
+/-- a complex array handed to a generated kernel as a read-only function of the index -/
+def cxFun (a : Array (Cx Float)) : Int → Cx Float :=
+  let nanF := Float.ofBits 0x7FF8000000000BAD
+  fun i => if i < 0 then ⟨nanF, nanF⟩ else a.getD i.toNat ⟨nanF, nanF⟩
 
 def imsqrtTable (tab : List (Float × Float × Float)) (z : Cx Float) : Float :=
   match tab.find? (fun t => t.1.toBits == z.re.toBits && t.2.1.toBits == z.im.toBits) with
@@ -49,27 +73,37 @@ def step (line : String) : String :=
     let hx := (List.range (L+2)).map (fun m => fb (rd (α := Float) st (.hx m)))
     String.intercalate " " wedge ++ " | " ++ String.intercalate " " hv ++ " | " ++ String.intercalate " " hx
   | ["genH", L, P, c, s, dflt] =>
-    -- the GENERATED kernels (Gen/HKern.lean) on a flat hash-map memory; tables from the generated element formulas
     let L := L.toNat!; let P := P.toNat!
     let LI : Int := L
-    let nm := Spec.nmRange (LI+1)
-    let nabsm := Spec.nabsmRange (LI+1)
-    let nanF := Float.ofBits 0x7FF8000000000BAD
-    let tabOf (xs : List Float) : Int → Float :=
-      let arr := xs.toArray
-      fun i => if i < 0 then nanF else arr.getD i.toNat nanF
-    let a := tabOf (nabsm.map (fun t => Gen.tab_a (α := Float) t.1 t.2))
-    let b := tabOf (nm.map (fun t => Gen.tab_b (α := Float) t.1 t.2))
-    let d := tabOf (nm.map (fun t => Gen.tab_d (α := Float) t.1 t.2))
-    let g := tabOf (nm.map (fun t => Gen.tab_g (α := Float) t.1 t.2))
-    let h := tabOf (nm.map (fun t => Gen.tab_h (α := Float) t.1 t.2))
-    let st0 : HFMem Float := { map := ∅, dflt := bf dflt }
-    let st := Gen.Wigner_H (α := Float) (φ := HFMem Float) g h LI P a b d ⟨bf c, bf s⟩ 0 1 2 st0
+    let st := genHState L P (bf c) (bf s) (bf dflt)
     let hsize := (Gen.WignerHsize P LI).toNat
     let wedge := (List.range hsize).map (fun (i : Nat) => fb (frd (α := Float) st 0 ((i : Nat) : Int)))
     let hv := (List.range ((L+1)*(L+1))).map (fun (i : Nat) => fb (frd (α := Float) st 1 ((i : Nat) : Int)))
     let hx := (List.range (L+2)).map (fun (i : Nat) => fb (frd (α := Float) st 2 ((i : Nat) : Int)))
     String.intercalate " " wedge ++ " | " ++ String.intercalate " " hv ++ " | " ++ String.intercalate " " hx
+  | ["gendfull", L, ellmin, c, s, dflt] =>
+    let L := L.toNat!
+    let st := genHState L L (bf c) (bf s) (bf dflt)
+    let st := Gen.u_fill_wigner_d (α := Float) ellmin.toInt! L L 3 (fun i => frd (α := Float) st 0 i) st
+    let n := (Gen.WignerDsize ellmin.toInt! L L).toNat
+    String.intercalate " " ((List.range n).map (fun (i : Nat) => fb (frd (α := Float) st 3 ((i : Nat) : Int))))
+  | ["genDfull", L, ellmin, r0, r1, r2, r3, isA, isG, dflt] =>
+    let L := L.toNat!
+    let (z0, z1, z2) := eulerPhases (bf r0) (bf r1) (bf r2) (bf r3)
+    let st := genHState L L z1.re z1.im (bf dflt)
+    let za := cpowers z0 L (fun _ => bf isA)
+    let zg := cpowers z2 L (fun _ => bf isG)
+    let st := Gen.u_fill_wigner_D (α := Float) ellmin.toInt! L L 3 (fun i => frd (α := Float) st 0 i) (cxFun za) (cxFun zg) st
+    let n := (Gen.WignerDsize ellmin.toInt! L L).toNat
+    String.intercalate " " ((List.range n).map (fun (i : Nat) => cxs (frdC (α := Float) st 3 ((i : Nat) : Int))))
+  | ["genY", L, P, ellmin, s, r0, r1, r2, r3, isA, pre, pim, dflt] =>
+    let L := L.toNat!; let P := P.toNat!
+    let (z0, z1, _) := eulerPhases (bf r0) (bf r1) (bf r2) (bf r3)
+    let st := genHState L P z1.re z1.im (bf dflt)
+    let za := cpowers z0 L (fun _ => bf isA)
+    let st := Gen.u_fill_sYlm (α := Float) ellmin.toInt! L P s.toInt! 3 (fun i => frd (α := Float) st 0 i) (cxFun za) ⟨bf pre, bf pim⟩ st
+    let n := (Gen.Ysize ellmin.toInt! L).toNat
+    String.intercalate " " ((List.range n).map (fun (i : Nat) => cxs (frdC (α := Float) st 3 ((i : Nat) : Int))))
   | ["gentables", L] =>
     let L : Int := L.toNat!
     let nm := Spec.nmRange (L+1)
